@@ -212,9 +212,9 @@ func propC10() *lib.Prop {
 			"with at least 6 registrations and an advance that fired at least 2 timers, or a restore followed by a firing",
 		NumCases: func(tier string) int {
 			if tier == "thorough" {
-				return 6000
+				return 15000
 			}
-			return 600
+			return 1500
 		},
 		Fixed: func(tier string) []lib.Case { return []lib.Case{d11, d11b, d10, zero} },
 		Gen: func(r *lib.Rng, tier string, i int) lib.Case {
@@ -238,7 +238,7 @@ func propC10() *lib.Prop {
 			grid := r.Range(5, 40)
 			scale := lib.Pick(r, []int64{1, 1, 1000, 1_000_000_000, 1 << 40})
 			wms := make([]int64, runners)
-			haveCkpt := false
+			haveCkpt, restored := false, false
 			sets := 0
 			for j := 0; j < n; j++ {
 				switch x := r.Intn(100); {
@@ -273,7 +273,10 @@ func propC10() *lib.Prop {
 				default:
 					if haveCkpt {
 						c.Ops = append(c.Ops, "restore")
-						c.Tags = append(c.Tags, "restore")
+						if !restored {
+							c.Tags = append(c.Tags, "restore")
+							restored = true
+						}
 						for k := range wms {
 							wms[k] = 0
 						}
